@@ -312,4 +312,15 @@ example : (applyAll true false (new false 7) [.arg 1, .envs [4, 5], .args [2, 3]
     some ⟨[7, 1, 2, 3], [8, 2, 3, 4, 0], .provided [4, 5, 6] [5, 6, 7, 0]⟩ := by decide
 example : (applyAll true true (new true 7) [.arg 1]).map (·.env) = some .inherit := by decide
 
+
+/-- a poll (`try_wait`) that finds the child still running leaves the handle exactly as it was — nothing is cached —
+so a later `wait` still reaps the child and reports its real status -/
+theorem try_wait_running_keeps_handle (p : Proc) (h : p.status = none) :
+    tryWait p .running = (p, .ok none, 1) := by
+  simp [tryWait, h]
+
+theorem wait_after_running_poll (p : Proc) (h : p.status = none) (st : Int) :
+    (wait (tryWait p .running).1 (.exited st)).2.1 = .ok st := by
+  simp [tryWait, wait, h]
+
 end TinyVerif.Spawn
